@@ -80,7 +80,7 @@ def _(c):
 
 @contract(CQ + "call_traversal_cb", props=("C06",))
 def _(c):
-    c.param("fn", "cb").param("node", "node").param("memo", "val")
+    c.param("fn", "cb").param("node", "node").param("memo", "val", "dref")
     c.families = ("plain",)
     c.result_tag = "any"
     c.result_alternatives = ("none", "false")
